@@ -76,6 +76,49 @@ func (o *Oblig) coverQF() string {
 // small query is decided instantly where the full one makes the solver wander. Returns "" when nothing is dropped.
 func (o *Oblig) slimScript() string { return o.sliceScript("RILV", 6) }
 
+// usesScript: for an invariant-preservation obligation whose clause carries uses(...): the loop invariants assumed
+// at the head are restricted to the named ones (every other assumption stays). Sound for `unsat`.
+func (o *Oblig) usesScript() string {
+	vc := o.vc
+	if vc == nil || !o.HasUses {
+		return ""
+	}
+	keep := map[string]bool{}
+	for _, u := range o.Uses {
+		keep[u] = true
+	}
+	var body []*Term
+	for i, a := range vc.assumes[:o.NAssume] {
+		if i < len(vc.tags) && i < len(vc.tagNames) && hasQuant(a) {
+			switch vc.tags[i] {
+			case 'I', 'R':
+				// loop invariants and the function's own preconditions: only the named ones
+				if vc.tagNames[i] != "" && !keep[vc.tagNames[i]] {
+					continue
+				}
+			case 'F':
+				// frame axioms of abstract predicates: only when the clause asks for them (uses(..., frames))
+				if !keep["frames"] {
+					continue
+				}
+			case 'V':
+				// invariants re-established by callees (their inv* postconditions): uses(..., callee_inv)
+				if !keep["callee_inv"] {
+					continue
+				}
+			}
+		}
+		body = append(body, a)
+	}
+	// the key-typing axioms of map domains are left out as well unless asked for (uses(..., keytypes)); scripts
+	// are generated sequentially, so the package-level switch is safe
+	noKeyTyping = !keep["keytypes"]
+	defer func() { noKeyTyping = false }()
+	return buildScript(vc, body, mkAnd(o.Reach, mkNot(o.Goal)), false)
+}
+
+var noKeyTyping bool
+
 // sliceScript: the query without the quantified assumptions whose provenance tag is in drop (sound for `unsat`:
 // fewer hypotheses). Returns "" when fewer than min assumptions would be dropped.
 func (o *Oblig) sliceScript(drop string, min int) string {
@@ -285,7 +328,7 @@ func buildScript(vc *VC, assumes []*Term, final *Term, wantModel bool) string {
 		case strings.HasPrefix(k, "H$MD$map[") && srt.Eq(SArr(SRef, SArr(SInt, SBool))):
 			// keys present in an integer-keyed map are values of the key type
 			kt := k[len("H$MD$map["):]
-			if i := strings.Index(kt, "]"); i > 0 {
+			if i := strings.Index(kt, "]"); i > 0 && !noKeyTyping {
 				if lo, hi, ok := intRangeByName(kt[:i]); ok {
 					fmt.Fprintf(&sb, "(assert (forall ((r Ref) (k Int)) (! (=> (select (select %s r) k) (and (<= %s k) (<= k %s))) :pattern ((select (select %s r) k)))))\n",
 						smtName(k), mkBig(lo), mkBig(hi), smtName(k))
@@ -554,6 +597,9 @@ func solveAll(obs []*Oblig, opt solveOpts) {
 			o.slimText = o.slimScript()
 			o.identText = o.identScript()
 		}
+		if o.HasUses {
+			o.usesText = o.usesScript()
+		}
 		if h := opt.hints[o.ID]; strings.HasPrefix(h, "z3-new-noext(slice-") {
 			o.hintName = strings.TrimSuffix(strings.TrimPrefix(h, "z3-new-noext(slice-"), ")")
 			o.hintText = o.sliceScript(o.hintName, 1)
@@ -707,6 +753,15 @@ func solveOne(o *Oblig, id int, opt solveOpts) {
 		o.Attempts = append(o.Attempts, fmt.Sprintf("slim:%s:%s:%.2fs", rs.solver, rs.verdict, rs.secs))
 		if rs.verdict == "unsat" {
 			o.Verdict, o.Solver, o.TimeS, o.Output = "unsat", "z3-new-noext(slim)", rs.secs, rs.out
+			o.Slim = true
+			return
+		}
+	}
+	if o.usesText != "" {
+		ru := runSolver("z3-new-noext", o.usesText, 2*primary, opt.scratch, id+960000, opt.seed)
+		o.Attempts = append(o.Attempts, fmt.Sprintf("uses:%s:%.2fs", ru.verdict, ru.secs))
+		if ru.verdict == "unsat" {
+			o.Verdict, o.Solver, o.TimeS, o.Output = "unsat", "z3-new-noext(uses)", ru.secs, ru.out
 			o.Slim = true
 			return
 		}
